@@ -569,7 +569,9 @@ def tree_growth_sessions(tree, seed, tier):
     withnew = {"units": [tree.units[0], addedunit.STEM], "constants": [], "io": True}
     allsel = {"units": "ALL", "constants": [], "io": True}
     revs = [(allsel, allsel, True, {"rev": 2, "mtime": "older"}), (withnew, withnew, True, {"rev": 2, "mtime": "equal"}), (withnew, allsel, True, {"rev": 2, "mtime": "newer"}),
-            (allsel, withnew, {"rev": 2, "mtime": "equal"}, True)]
+            (allsel, withnew, {"rev": 2, "mtime": "equal"}, True),
+            # only a header that is reached transitively changes; the file the command line names does not
+            (withnew, withnew, True, {"rev": 2, "mtime": "older", "where": "transitive"}), (allsel, allsel, True, {"rev": 2, "mtime": "newer", "where": "transitive"})]
     if tier != "quick":
         revs = revs + [(b, a, x, dict(y, mtime=m) if isinstance(y, dict) else y) for b, a, x, y in revs for m in ("older", "equal", "newer")]
     shapes += revs
